@@ -153,7 +153,7 @@ def report(mod, pid, a, seed, results, wall):
             'solver_time_s': round(sum(r.get('solver_time_s', 0) for r in results), 2),
             'assertions_reached': sum(r.get('asserts', 0) for r in results),
             'functions_encoded': meta.get('functions', []),
-            'bounds': meta.get('bounds', {}).get(a.tier, meta.get('bounds', {})),
+            'bounds': (meta.get('bounds', {}).get(a.tier, meta.get('bounds', {})) if isinstance(meta.get('bounds', {}), dict) else meta.get('bounds')),
             'outside_claim': meta.get('outside', []),
             'stubs': meta.get('stubs', []),
             'engines': meta.get('engines', ['ZX']),
